@@ -852,7 +852,9 @@ def one_case(ck, ci, rng):
         shutil.rmtree(tmpb, ignore_errors=True)
 
 
-# MUST_CATCH (selftest/breaks_c31.py, 27 planted breaks, all caught by a key other than the findings below):
+# MUST_CATCH (selftest/breaks_c31.py, 29 planted breaks + seeded/C31-1, all caught):
+#   multi-block PATCH pre-check: running offset lost (= seeded/C31-1, identical re-send > 64 KiB gets 409); only the
+#     first block pre-checked (conflict in a later block partially applied) -- directed large-write family
 #   range reads: client Range header +1 / -1; server read past end -> 416; read at end -> 416; _ReadRangeProducer
 #     not advancing (reads > 64 KiB); _ReadAllProducer stopping after 64 KiB
 #   chunked writes: server Content-Range start +1; server drops last byte; client Content-Range stop -1; server
@@ -864,7 +866,7 @@ def one_case(ck, ci, rng):
 #   read-test-write: new-length dropped (server) / 0 -> None (client); test-vector size ignored; only first write
 #     vector; read-vector size +1; adapter always reports success; adapter slot_readv first vector only;
 #     mutable range read length capped
-# Findings on the unchanged tree (reported to the lead, keys):
+# Findings on the originally pinned tree (all fixed in /repo since), keys:
 #   zero-length-read-fails-over-http, slot-readv-of-missing-share-fails-over-http,
 #   empty-corruption-reason-rejected-over-http, non-utf8-corruption-reason-fails-direct-only,
 #   rejected-large-write-partially-applied-over-http
